@@ -730,6 +730,26 @@ func (w *World) regFuncsOfArg(v ssa.Value, depth int) []*ssa.Function {
 			out = append(out, w.regFuncsOfArg(a, depth+1)...)
 		}
 	case *ssa.UnOp:
+		// the element of a range over a slice literal of this function: `for _, fn := range []any{keys, vals} {`
+		if ia, ok := x.X.(*ssa.IndexAddr); ok {
+			var arr *ssa.Alloc
+			switch sl := ia.X.(type) {
+			case *ssa.Slice:
+				arr, _ = sl.X.(*ssa.Alloc)
+			case *ssa.Alloc:
+				arr = sl
+			}
+			if arr != nil {
+				if _, isConstIdx := ia.Index.(*ssa.Const); !isConstIdx {
+					for _, el := range arrayLiteralElems(arr) {
+						out = append(out, w.regFuncsOfArg(el, depth+1)...)
+					}
+					if len(out) > 0 {
+						return out
+					}
+				}
+			}
+		}
 		// the element of a range over a slice parameter
 		if ia, ok := x.X.(*ssa.IndexAddr); ok {
 			if p, ok := ia.X.(*ssa.Parameter); ok {
@@ -739,6 +759,36 @@ func (w *World) regFuncsOfArg(v ssa.Value, depth int) []*ssa.Function {
 					}
 				}
 			}
+		}
+	}
+	return out
+}
+
+// arrayLiteralElems: the values stored into the elements of a local array literal, in index order.
+func arrayLiteralElems(arr *ssa.Alloc) []ssa.Value {
+	byIdx := map[int64]ssa.Value{}
+	if arr.Referrers() == nil {
+		return nil
+	}
+	for _, ref := range *arr.Referrers() {
+		ia, ok := ref.(*ssa.IndexAddr)
+		if !ok {
+			continue
+		}
+		k, ok := ia.Index.(*ssa.Const)
+		if !ok || k.Value == nil || k.Value.Kind() != constant.Int {
+			continue
+		}
+		for _, u := range *ia.Referrers() {
+			if st, ok := u.(*ssa.Store); ok && st.Addr == ssa.Value(ia) {
+				byIdx[k.Int64()] = st.Val
+			}
+		}
+	}
+	var out []ssa.Value
+	for i := int64(0); i < int64(len(byIdx)); i++ {
+		if v, ok := byIdx[i]; ok {
+			out = append(out, v)
 		}
 	}
 	return out
